@@ -581,22 +581,34 @@ func c12ParseDims(s string) (int, int, bool) {
 	return 0, 0, false
 }
 
+func c12RefHints(k *c12Case, hints c14Hints) c14Hints {
+	rh := c14Hints{}
+	for kk, v := range hints {
+		rh[kk] = v
+	}
+	if k.w.kind != "dm" {
+		rh[gozxing.EncodeHintType_MARGIN] = 0
+	}
+	return rh
+}
+
 // c12Run judges one case (oracle) and queues the correspondence line.
 func c12Run(c *Ctx, k *c12Case, d time.Duration) {
 	hints := k.hintMap()
 	// reference call: the encoder core's own outcome and the natural symbol size (0x0 request, margin 0, own format)
 	ref := "na"
 	if k.contents != "" || k.w.name == "UPC_A" { // the UPC-A writer prepends "0" before the emptiness check
-		rh := c14Hints{}
-		for kk, v := range hints {
-			rh[kk] = v
-		}
-		if k.w.kind != "dm" {
-			rh[gozxing.EncodeHintType_MARGIN] = 0
-		}
-		ref = c12Call(d, k.w.w, k.contents, k.w.format, 0, 0, rh)
+		ref = c12Call(d, k.w.w, k.contents, k.w.format, 0, 0, c12RefHints(k, hints))
 	}
 	out := c12Call(d, k.w.w, k.contents, k.format, k.width, k.height, hints)
+	if out == "TIMEOUT" {
+		// a loaded machine can starve a goroutine for seconds: only a call that also exceeds 10x the limit counts
+		c.Note("slow-call-retried")
+		out = c12Call(10*d, k.w.w, k.contents, k.format, k.width, k.height, hints)
+	}
+	if ref == "TIMEOUT" {
+		ref = c12Call(10*d, k.w.w, k.contents, k.w.format, 0, 0, c12RefHints(k, hints))
+	}
 	in := k.input()
 	cls := out
 	if i := strings.IndexAny(out, " :"); i >= 0 {
@@ -614,7 +626,7 @@ func c12Run(c *Ctx, k *c12Case, d time.Duration) {
 		case strings.HasPrefix(out, "PANIC"):
 			key, detail = k.w.name+"-panic-"+c12PanicClass(out), "Encode panicked: "+out
 		case out == "TIMEOUT":
-			key, detail = k.w.name+"-timeout", fmt.Sprintf("Encode did not return within %v", d)
+			key, detail = k.w.name+"-timeout", fmt.Sprintf("Encode did not return within %v", 10*d)
 		case out == "NEITHER" || out == "BOTH":
 			key, detail = k.w.name+"-"+strings.ToLower(out), "Encode returned "+out+" of (matrix, error)"
 		case strings.HasPrefix(out, "ok"):
@@ -738,6 +750,8 @@ func c12Corpus(ws []c12Writer) []*c12Case {
 		mk("QR", "hello", 10, 10, h(gozxing.EncodeHintType_MARGIN, -8, "int:-8")),
 		// Code 128 forced code set C: digit followed by FNC1
 		mk("CODE_128", "1ñ", 0, 0, h(gozxing.EncodeHintType_FORCE_CODE_SET, "C", "str:43")),
+		// consequence of D16 (owned by C02): a size constraint makes an encoder fail, EncodeHighLevel drops the error
+		mk("DM", "j31lfm1lhq7bjvgsryl8icjib4oeu2mik97za5zs\u00f1", 0, 0, func() c12Hint { v, enc := c12Dim(18, 8); return h(gozxing.EncodeHintType_MAX_SIZE, v, enc) }()),
 		// out-of-range ErrorCorrectionLevel value
 		mk("QR", "hello", 0, 0, h(gozxing.EncodeHintType_ERROR_CORRECTION, qrdecoder.ErrorCorrectionLevel(7), "other:ecl:7")),
 	}
